@@ -817,3 +817,23 @@ def r8(rr, repo):
     rr.ob("the interval fields are weighted 86400, 3600, 60, 1 (days, hours, minutes, seconds)", weights == [86400, 3600, 60, 1], um, lists[0] if lists else pti, witness=str(weights), key='interval-weights')
     last4 = any(isinstance(x, ast.Subscript) and isinstance(x.slice, ast.Slice) and U(x.slice.lower) == '-4' and x.slice.upper is None for x in ast.walk(pti))
     rr.ob("missing leading fields count as 0 and the rightmost field is the seconds (the text is left-padded and its LAST four fields are taken)", last4 and "'0:0:0:' + text" in U(pti), um, pti, key='interval-right-aligned')
+
+
+@rule('C08.R9', "an exit announcement is heard from every source while a filter waits: a source whose set for the current id is complete is taken out of the poller until the whole set is returned, so whatever it "
+                "sends next - its exit announcement included - stays unread while the join waits for its other sources; hearing it needs a second way of reading the sockets that are out of the poller "
+                "(or keeping them in it and setting early data aside)")
+def r9(rr, repo):
+    from .zmq import anchors
+    za = anchors(repo)
+    unreg = [c for c in q.calls_in(za.R_once) if U(c.func) == 'poller.unregister' and any(pol and 'got_all' in U(t) for t, pol in q.guards_of(c, stop=za.R_once))]
+    rr.floor('places where a complete source is taken out of the poller', len(unreg), 1, za.mod, za.R_once)
+    # every read of a SUB socket in recv(): is its socket always one the poller just reported?
+    reads = [c for c in q.calls_in(za.R_recv) if isinstance(c.func, ast.Attribute) and c.func.attr in ('recv_multipart', 'recv')]
+    polled_only = True
+    for c in reads:
+        sock = U(c.func.value)
+        from_poll = any(isinstance(n, ast.Assign) and isinstance(n.targets[0], ast.Tuple) and U(n.targets[0].elts[0]) == sock and 'socks' in U(n.value) for n in ast.walk(za.R_recv))
+        if not from_poll:
+            polled_only = False
+    rr.ob('a source that is out of the poller (its set is complete) is still read for out-of-band messages while the join waits for the others', not polled_only or not unreg, za.mod, unreg[0] if unreg else za.R_once,
+          witness=f'{len(unreg)} unregister site(s) for complete sources; sockets are read only when the poller reports them: {polled_only}', key='complete-source-exit-unheard')
